@@ -360,7 +360,7 @@ func scriptWeights(s []int) []int {
 
 func (a *OracleActor) byzReport(e *Env) {
 	w := e.W
-	kind := e.Ch.Intn("oracle.byz.kind", 6)
+	kind := e.Ch.Intn("oracle.byz.kind", 7)
 	v := w.Vals[e.Ch.Intn("oracle.byz.val", len(w.Vals))]
 	var rid uint64
 	var r *openRequest
@@ -399,6 +399,13 @@ func (a *OracleActor) byzReport(e *Env) {
 		}
 	case 5:
 		label = "byz_bad_request_id"
+	case 6: // right length, only requested ids, but one of them twice (adjacent or not) and another one missing
+		if len(raw) > 1 {
+			i := e.Ch.Intn("oracle.byz.dup.from", len(raw))
+			j := (i + 1 + e.Ch.Intn("oracle.byz.dup.to", len(raw)-1)) % len(raw)
+			raw[j].ExternalID = raw[i].ExternalID
+			label = "byz_duplicate_eid_same_length"
+		}
 	}
 	e.St.Fault(label)
 	msg := oracletypes.NewMsgReportData(oracletypes.RequestID(rid), raw, v.Val)
